@@ -279,6 +279,10 @@ def getDone (_cfg : Cfg) (_s : St) (_a : Aid) : Bool := false
 def allDoneOn (cfg : Cfg) (ms : List Rat) : Bool :=
   ms.all fun m => decide (absR (m - average ms) ≤ cfg.tol)
 
+/-- the same test with the tolerance moved by `slack` (the judge's grey zone around the boundary, Spec/Broadcast.lean) -/
+def allDoneWith (cfg : Cfg) (slack : Rat) (ms : List Rat) : Bool :=
+  ms.all fun m => decide (absR (m - average ms) ≤ cfg.tol + slack)
+
 /-- `get_all_done` -/
 def getAllDone (cfg : Cfg) (s : St) : Except GErr Bool :=
   let bs := (List.range s.w.n).filter cfg.isB
